@@ -124,28 +124,13 @@ fn dirty_cases(_t: Tier) -> BoxedStrategy<Case> {
 
 /// Rewrites the generated AST so that it avoids the lexical forms with an OPEN known finding;
 /// returns the rewritten AST and one finding key per replaced node.
-pub fn steer(e: &Expr, path: Path, dc: i64, dr: i64) -> (Expr, Vec<String>) {
+pub fn steer(e: &Expr, _path: Path, _dc: i64, _dr: i64) -> (Expr, Vec<String>) {
     let mut excluded: Vec<String> = Vec::new();
     let out = e.map(&mut |x| match x {
-        Expr::Array(rows) => {
-            excluded.push("array/altered".into());
-            Expr::Paren(Box::new(rows[0][0].clone()))
-        }
         Expr::At(inner) => {
             excluded.push("at/dropped".into());
             *inner
         }
-        Expr::Ref(r) if path == Path::Translate => match &r.area {
-            Area::Rows { r1, r2, a1, a2 } if dr != 0 && !(*a1 && *a2) => {
-                excluded.push("rows/not-shifted".into());
-                Expr::Ref(RefNode { qual: r.qual.clone(), area: Area::Rows { r1: *r1, a1: true, r2: *r2, a2: true } })
-            }
-            Area::Cols { c1, c2, a1, a2 } if dc != 0 && !(*a1 && *a2) => {
-                excluded.push("cols/not-shifted".into());
-                Expr::Ref(RefNode { qual: r.qual.clone(), area: Area::Cols { c1: *c1, a1: true, c2: *c2, a2: true } })
-            }
-            _ => Expr::Ref(r),
-        },
         o => o,
     });
     (out, excluded)
@@ -369,13 +354,22 @@ fn fails(o: &Outcome) -> Option<(String, String, String)> {
 /// long as the failure persists.  `run_ref(original, strip_qualifier, area)` runs the single
 /// reference `area` with the original's qualifier, or - if `strip_qualifier` - the
 /// semantically equivalent unqualified reference (C08: hosted on the target sheet).
-fn minimise_ref(r: &RefNode, run_ref: &dyn Fn(&RefNode, bool, &Area) -> Outcome) -> (String, String) {
+fn minimise_ref(r: &RefNode, run_ref: &dyn Fn(&RefNode, bool, &Area, bool) -> Outcome) -> (String, String) {
     let mut area = r.area.clone();
     let mut strip = false;
-    let mut mode = fails(&run_ref(r, strip, &area)).map(|f| f.0).unwrap_or("altered".into());
+    let mut lower = r.lower;
+    let mut mode = fails(&run_ref(r, strip, &area, lower)).map(|f| f.0).unwrap_or("altered".into());
+    let mut keep_lower = r.shows_lower();
+    if keep_lower {
+        if let Some(f) = fails(&run_ref(r, strip, &area, false)) {
+            lower = false;
+            mode = f.0;
+            keep_lower = false;
+        }
+    }
     let mut keep_qual = r.qual.is_some();
     if keep_qual {
-        if let Some(f) = fails(&run_ref(r, true, &area)) {
+        if let Some(f) = fails(&run_ref(r, true, &area, lower)) {
             strip = true;
             mode = f.0;
             keep_qual = false;
@@ -384,7 +378,7 @@ fn minimise_ref(r: &RefNode, run_ref: &dyn Fn(&RefNode, bool, &Area) -> Outcome)
     let mut keep_abs = area.abs_kind() != "rel";
     if keep_abs {
         let v = area.relative();
-        if let Some(f) = fails(&run_ref(r, strip, &v)) {
+        if let Some(f) = fails(&run_ref(r, strip, &v, lower)) {
             area = v;
             mode = f.0;
             keep_abs = false;
@@ -393,7 +387,7 @@ fn minimise_ref(r: &RefNode, run_ref: &dyn Fn(&RefNode, bool, &Area) -> Outcome)
     let mut keep_kind = area.kind() != "cell";
     if keep_kind {
         for v in [area.first_cell(), area.last_cell()] {
-            if let Some(f) = fails(&run_ref(r, strip, &v)) {
+            if let Some(f) = fails(&run_ref(r, strip, &v, lower)) {
                 area = v;
                 mode = f.0;
                 keep_kind = false;
@@ -405,6 +399,9 @@ fn minimise_ref(r: &RefNode, run_ref: &dyn Fn(&RefNode, bool, &Area) -> Outcome)
     if keep_abs {
         label.push('.');
         label.push_str(area.abs_kind());
+    }
+    if keep_lower {
+        label.push_str("+lc");
     }
     if keep_qual {
         label.push('@');
@@ -421,7 +418,7 @@ pub fn classify(
     trail: u8,
     first: (String, String, String),
     run: &dyn Fn(&Expr, &[u8], u8, u8) -> Outcome,
-    run_ref: &dyn Fn(&RefNode, bool, &Area) -> Outcome,
+    run_ref: &dyn Fn(&RefNode, bool, &Area, bool) -> Outcome,
 ) -> (String, String) {
     let (mode0, tok_class0, detail0) = first;
     // 0. blanks
@@ -437,6 +434,14 @@ pub fn classify(
             return (format!("leading-blank/{}", mode0), detail0);
         }
         l = 0;
+    }
+    if b.iter().any(|x| *x >= 3) {
+        // line feed / tab / CR LF replaced by a space
+        let spaces: Vec<u8> = b.iter().map(|x| if *x >= 3 { 1 } else { *x }).collect();
+        if fails(&run(e, &spaces, l, t)).is_none() {
+            return (format!("non-space-blank/{}", mode0), detail0);
+        }
+        b = spaces;
     }
     if b.iter().any(|x| *x > 0) {
         if fails(&run(e, &[], l, t)).is_none() {
@@ -474,6 +479,12 @@ pub fn classify(
 pub fn coarse_classes(e: &Expr) -> BTreeSet<String> {
     let mut out = BTreeSet::new();
     for c in e.classes() {
+        let c = if c.contains("+lc") {
+            out.insert("case:lower".to_string());
+            c.replace("+lc", "")
+        } else {
+            c
+        };
         // reference classes are split into their dimensions to keep the table readable
         if let Some((area_abs, q)) = c.split_once('@') {
             out.insert(format!("qual:{}", q));
@@ -536,6 +547,12 @@ fn check(c: &Case, obs: &mut Obs) -> Verdict {
     if c.blanks.iter().any(|b| *b > 0) {
         obs.class("blank:decorative");
     }
+    if c.blanks.iter().any(|b| *b == 3 || *b >= 5) {
+        obs.class("blank:line-feed");
+    }
+    if c.blanks.iter().any(|b| *b == 4) {
+        obs.class("blank:tab");
+    }
     if c.path == Path::Translate {
         let n_dead = e.refs().iter().filter(|r| translate_area(&r.area, dc, dr).is_none()).count();
         if n_dead > 0 {
@@ -545,6 +562,35 @@ fn check(c: &Case, obs: &mut Obs) -> Verdict {
             obs.class("translate:zero");
         }
     }
+    for sub in e.subtrees() {
+        if let Expr::Intersect(l, r) = sub {
+            if matches!(**l, Expr::Paren(_) | Expr::Func { .. }) {
+                obs.class("intersect:after-close-paren");
+            }
+            if matches!(**r, Expr::Paren(_)) {
+                obs.class("intersect:before-open-paren");
+            }
+            if matches!(**r, Expr::Func { .. }) {
+                obs.class("intersect:before-function");
+            }
+        }
+    }
+    if c.path == Path::Translate {
+        // references that sit exactly on the last row / column and do not move on that axis
+        let on_edge = e.refs().iter().any(|r| {
+            (dr == 0 && r.area.max_row() == Some(MAX_ROW)) || (dc == 0 && r.area.max_col() == Some(MAX_COL))
+        });
+        if on_edge {
+            obs.class("translate:edge-ref-zero-delta");
+        }
+        let lands_on_edge = e.refs().iter().any(|r| match translate_area(&r.area, dc, dr) {
+            Some(a) => (dr != 0 && a.max_row() == Some(MAX_ROW)) || (dc != 0 && a.max_col() == Some(MAX_COL)),
+            None => false,
+        });
+        if lands_on_edge {
+            obs.class("translate:lands-on-last-row-or-column");
+        }
+    }
     obs.nontrivial(is_nontrivial(&e));
     match attempt(&e, &c.blanks, c.lead, c.trail, &p) {
         Outcome::Pass => Verdict::Pass,
@@ -552,9 +598,9 @@ fn check(c: &Case, obs: &mut Obs) -> Verdict {
         Outcome::Harness(d) => Verdict::fail("harness/generator-lexer-disagree", d),
         Outcome::Fail { mode, tok_class, detail } => {
             let run = |x: &Expr, b: &[u8], l: u8, t: u8| attempt(x, b, l, t, &p);
-            let run_ref = |r: &RefNode, strip: bool, a: &Area| {
+            let run_ref = |r: &RefNode, strip: bool, a: &Area, lower: bool| {
                 let q = if strip { None } else { r.qual.clone() };
-                attempt(&Expr::Ref(RefNode { qual: q, area: a.clone() }), &[], 0, 0, &p)
+                attempt(&Expr::Ref(RefNode { qual: q, area: a.clone(), lower }), &[], 0, 0, &p)
             };
             let (key, detail) = classify(&e, &c.blanks, c.lead, c.trail, (mode, tok_class, detail), &run, &run_ref);
             Verdict::fail(key, detail)
